@@ -1017,6 +1017,28 @@ def sys_fixed(tier):
     return out
 
 
+def sys_fixed_faults(tier):
+    """the server's transport reports one failure (at its next read / readiness check / flush; later operations would succeed) while
+    handlers are running and the client keeps calling: the channel behind Channel::execute / spawn_incoming stops using the transport,
+    is dropped, and its handlers are aborted"""
+    out = []
+    # (not over the in-memory transport: there a channel that keeps using a failed transport never returns to the runtime, and the
+    # run ends as a harness timeout - a tool error - instead of a verdict)
+    for tr in ("json", "bincode"):
+        for op in ("next", "ready", "flush"):
+            for n, limit in ((0, -1), (1, 2)):
+                cfg = {"n": n, "limit": limit, "maxInFlight": 16, "buf": 16, "respBuf": 4, "transport": tr}
+                steps = [{"a": "Connect", "k": 1, "key": 1}, {"a": "Connect", "k": 2, "key": 2}, {"a": "Run"},
+                         {"a": "Call", "c": 1, "k": 1, "dl": 100000}, {"a": "Call", "c": 2, "k": 1, "dl": 100000},
+                         {"a": "Call", "c": 5, "k": 2, "dl": 100000}, {"a": "Run"},
+                         {"a": "ArmServer", "k": 1, "op": op}]
+                steps += [{"a": "Call", "c": 3, "k": 1, "dl": 100000}] if op == "next" else [{"a": "Complete", "c": 1}]
+                steps += [{"a": "Run"}, {"a": "Call", "c": 4, "k": 1, "dl": 100000}, {"a": "Run"}, {"a": "Complete", "c": 2}, {"a": "Run"},
+                          {"a": "Call", "c": 6, "k": 1, "dl": 100000}, {"a": "Run"}, {"a": "Complete", "c": 5}, {"a": "Run"}]
+                out.append(dict(id="sysfault:%s:%s:%d" % (tr, op, n), cfg=cfg, steps=steps))
+    return out
+
+
 def sys_family(rq, rt, sub="none"):
     return dict(family="sys", trace_module="Trace_Sys", random_quick=rq, random_thorough=rt, no_mech=True, tag="sys-" + sub, fixed=sys_fixed,
                 opts={"sub": sub},
@@ -1036,6 +1058,13 @@ for _p in ("C01", "C02", "C03", "C04", "C10", "C12", "C13"):
 # under a process-wide OpenTelemetry layer: every handler observes the trace id and sampling decision of its own call
 PROPS["C18"]["families"].append(sys_family(500, 8000))
 PROPS["C18"]["families"].append(sys_family(500, 8000, sub="otel"))
+# C09 / C14 through the entry points applications use (Requests::execute, Channel::execute, spawn_incoming): fixed fault scenarios only
+for _p in ("C09", "C14"):
+    PROPS[_p]["families"].append(dict(family="sys", trace_module="Trace_Sys", random_quick=0, random_thorough=0, no_mech=True, tag="sys-faults",
+                                      fixed=sys_fixed_faults, opts={"sub": "none"}, exports=[]))
+    PROPS[_p]["assumptions"] = PROPS[_p]["assumptions"] + [
+        "sys-faults: one injected failure of the server's transport (read / readiness / flush, over the JSON and bincode "
+        "transports) under spawn_incoming + Channel::execute on a tokio runtime; judged by ObsSys.tla (bad09 / bad14)"]
 
 # ------------------------------------------------------------------ manifest texts
 def _mt(spec, what, design, note_extra=""):
